@@ -163,7 +163,7 @@ var intVars = []string{"n1", "n2", "p1.Age", "m1.num", "gn", "loop.index"}
 
 // identifiers that differ from others only by case: S1/s1, N1/n1 (distinct values in the context)
 var listVars = []string{"l1", "il", "sl", "p1.Tags", "l2", "gl"}
-var mapVars = []string{"m1", "m2", "p1.Meta", "mi", "gm", "nk"}
+var mapVars = []string{"m1", "m2", "p1.Meta", "mi", "gm", "nk", "big"}
 var strFilters = []string{"upper", "lower", "trim", "capitalize", "title", "escape", "e", "raw", "striptags", "nl2br", "url_encode", "reverse", "length", "default('d')", "replace('a', 'b')", "slice(0, 2)", "first", "last", "json_encode", "spaceless"}
 var listFilters = []string{"reverse", "sort", "slice(1, 2)", "merge([7, 8])", "slice(0, 1)"}
 
@@ -632,9 +632,19 @@ func defaultCtx(r *R) *Val {
 		{"p1", person("Ann", nil)},
 		{"pp", pp},
 		{"lab", &Val{T: "stringer", S: "L"}},
+		{"big", bigMap()},
 		{"ns", &Val{T: "str", S: pick(r, nastyStrings)}},
 		{"nk", nastyMap(r)},
 	}}
+}
+
+// bigMap has 18 entries (tables and caches that only engage above some size).
+func bigMap() *Val {
+	m := &Val{T: "map"}
+	for i := 0; i < 18; i++ {
+		m.M = append(m.M, KV{fmt.Sprintf("key%02d", (i*7)%18), &Val{T: "int", I: int64(i)}})
+	}
+	return m
 }
 
 // nastyMap is a map whose keys and values come from nastyStrings.
